@@ -303,6 +303,15 @@ def stub_agrees(logic, wex, was, s, prompt):
 
 # ---- run / replay --------------------------------------------------------------------------------
 
+def _selfcheck(ctx, model, depth):
+    n, pairs, mism = G.canon_selfcheck(model, depth)
+    ctx.coverage["canon_selfcheck"] = {"states": n, "merged_pairs_compared": pairs, "mismatches": len(mism)}
+    if mism and not ctx.violations:
+        raise common.HarnessError(f"canonical state merges behaviourally different states: {mism[:2]}")
+    if mism:
+        ctx.note(f"canonicalisation self-check: {len(mism)} merged pairs differ (tree already violates the property)")
+
+
 def run(ctx):
     quick = ctx.tier == "quick"
     pis = list(range(len(PROMPTS))) + ([] if quick else [-1])
@@ -336,6 +345,9 @@ def run(ctx):
     # engine A
     depth = 30  # fixpoint is reached at depth 6
     res = explore.explore(HistModel(), ctx, depth)
+
+    if not quick:
+        _selfcheck(ctx, HistModel(), depth)
 
     # binding
     real_exec = 0
